@@ -9,7 +9,7 @@ from hypothesis import strategies as st
 
 from .. import gen, model
 from ..cliutil import run_cli
-from ..core import Ctx, Violation, call, check, per_shard, run_given
+from ..core import Ctx, Violation, call, check, per_shard, run_given, given_part, machine_part, run_parts
 from . import c05, c09
 
 PID = "C16"
@@ -528,21 +528,16 @@ def replay(ctx: Ctx, case):
 
 def run(ctx: Ctx):
     q = ctx.tier == "quick"
-    if not run_given(ctx, "dump", dump_cases(), check_dump, per_shard(ctx, 1600 if q else 40000), batch=50):
-        return
-    if not run_given(ctx, "table", table_cases(), check_table, per_shard(ctx, 240 if q else 4000), batch=30):
-        return
-    if not run_given(ctx, "roundtrip", roundtrip_cases(), check_roundtrip, per_shard(ctx, 320 if q else 8000), batch=20):
-        return
-    if not run_given(ctx, "layout", layout_cases(), check_layout, per_shard(ctx, 320 if q else 8000), batch=20):
-        return
-    if not run_given(ctx, "load-shifted", c05.cli_load_cases().filter(lambda c: c["shift"] > 0).map(lambda c: dict(c, part="cli_load_c05", bad=None)),
-                     CHECKS["cli_load_c05"], per_shard(ctx, 96 if q else 2000), batch=12):
-        return
-    if not run_given(ctx, "zoomify-spec", c09.cli_cases(), c09.check_cli, per_shard(ctx, 24 if q else 400), batch=6):
-        return
-    if not run_given(ctx, "windows", window_cases(), check_windows, per_shard(ctx, 24 if q else 600), batch=3):
-        return
+    parts = []
+    parts.append(given_part(ctx, "dump", dump_cases(), check_dump, per_shard(ctx, 1600 if q else 40000), batch=50))
+    parts.append(given_part(ctx, "table", table_cases(), check_table, per_shard(ctx, 240 if q else 4000), batch=30))
+    parts.append(given_part(ctx, "roundtrip", roundtrip_cases(), check_roundtrip, per_shard(ctx, 320 if q else 8000), batch=20))
+    parts.append(given_part(ctx, "layout", layout_cases(), check_layout, per_shard(ctx, 320 if q else 8000), batch=20))
+    parts.append(given_part(ctx, "load-shifted", c05.cli_load_cases().filter(lambda c: c["shift"] > 0).map(lambda c: dict(c, part="cli_load_c05", bad=None)),
+                     CHECKS["cli_load_c05"], per_shard(ctx, 96 if q else 2000), batch=12))
+    parts.append(given_part(ctx, "zoomify-spec", c09.cli_cases(), c09.check_cli, per_shard(ctx, 24 if q else 400), batch=6))
+    parts.append(given_part(ctx, "windows", window_cases(), check_windows, per_shard(ctx, 24 if q else 600), batch=3))
     # tabix-indexed pairs whose second mate is NOT in the default columns, through `cooler cload tabix -c2 -p2`
-    run_given(ctx, "tabix-layout", c05.tabix_cases().map(lambda c: dict(c, part="tabix_c05", bad_pos2=None, via="cli-p2" if c["via"] == "cli-p2" else "cli")),
-              CHECKS["tabix_c05"], per_shard(ctx, 24 if q else 600), batch=6)
+    parts.append(given_part(ctx, "tabix-layout", c05.tabix_cases().map(lambda c: dict(c, part="tabix_c05", bad_pos2=None, via="cli-p2" if c["via"] == "cli-p2" else "cli")),
+              CHECKS["tabix_c05"], per_shard(ctx, 24 if q else 600), batch=6))
+    run_parts(ctx, parts)
